@@ -368,10 +368,13 @@ def solver_empty(ctx, f, n):
     repo = ctx.repo
     fn = f.node
     shape_ok = norm(n.args[0]) == "(self.num_edges, 2)"
-    ne = [norm(x.value) for x in own_nodes(fn) if isinstance(x, ast.Assign) and norm(x.targets[0]) == "self.num_edges"]
-    edges_def = [norm(x.value) for x in own_nodes(fn) if isinstance(x, ast.Assign) and norm(x.targets[0]) == "edges"]
-    ec_def = [norm(x.value) for x in own_nodes(fn) if isinstance(x, ast.Assign) and norm(x.targets[0]) == "self.edge_centers"]
-    same_space = ne == ["len(edges)"] and edges_def == ["mesh.edge_mesh.edges"] and ec_def and ec_def[0] == "xi * mesh.edge_mesh.centers"
+    import re
+    from ..dataflow import expanded_text
+    # buffer rows and the kernel's evaluation points are indexed by the same edge set (alias locals expanded: name independent)
+    ne = [expanded_text(fn, x.value) for x in own_nodes(fn) if isinstance(x, ast.Assign) and norm(x.targets[0]) == "self.num_edges"]
+    ec_def = [expanded_text(fn, x.value) for x in own_nodes(fn) if isinstance(x, ast.Assign) and norm(x.targets[0]) == "self.edge_centers"]
+    m_ = re.fullmatch(r"len\((.+)\.edges\)", ne[0]) if len(ne) == 1 else None
+    same_space = bool(m_) and bool(ec_def) and (ec_def[0].endswith(f"* {m_.group(1)}.centers") or ec_def[0].startswith(f"{m_.group(1)}.centers *"))
     fg = repo.func("tdgl.solver.solver", "TDGLSolver.get_induced_vector_potential")
     order = []
     for x in own_nodes(fg.node):
